@@ -104,10 +104,13 @@ def analyze(sched, res):
                     if "v" not in v:
                         continue
                     exp.append(dict(topic=prefix + "/settings" + p, payload=v["v"], alt=(TOO_LARGE, "Error"), retain=0, code="Ok", cd=walk["cd"]))
-                if take(exp, "C10", "dump of %r" % chunk) and exp and walk["initial"]:
+                took = take(exp, "C10", "dump of %r" % chunk)
+                if took and exp and walk["initial"]:
                     if ep["sub_t"] is None or now < ep["sub_t"] + 2000:
                         V.append(("C13", k, "initial dump published at %d ms, subscription sent at %r" % (now, ep["sub_t"])))
                     ep["dump_started"] = True
+                if not took and walk["initial"]:
+                    V.append(("C13", k, "the dump after the (re)connection does not publish the settings: expected %s, client sent %s" % (json.dumps(exp)[:300], json.dumps([brief(g) for g in pubs])[:300])))
             else:
                 exp = [dict(topic=walk["resp"], payload=list(p.encode()), retain=0, code="Continue", cd=walk["cd"]) for p in chunk]
                 done = walk["pos"] + consumed == len(walk["leaves"]) and (a["state"] == "Single" or new_walk)
@@ -181,6 +184,15 @@ def analyze(sched, res):
             ep["live_since"] = ep["live_since"] if ep["live_since"] is not None else k
             if k - ep["live_since"] >= 3 and any("v" in v for v in vals.values()) and a["state"] in ("Wait",):
                 V.append(("C13", k, "no initial dump %d calls after the dump timeout elapsed (subscription at %d ms, now %d ms)" % (k - ep["live_since"], ep["sub_t"], now)))
+        # ... and in one connection epoch the first multipart the client completes is that full dump: it does not get
+        # back to Single without having published it (epochs in which the application called dump() are not judged:
+        # API calls are outside what C13 quantifies over)
+        if sin.get("api") == "dump":
+            ep["api_dump"] = True
+        if a["state"] == "Single" and b["state"] in ("Wait", "Init", "Multipart") and ep["sub_t"] is not None and not ep["dump_started"] \
+                and not ep.get("api_dump") and not reset_first and any("v" in v for v in vals.values()) and not ep.get("single_flagged"):
+            ep["single_flagged"] = True
+            V.append(("C13", k, "the client is idle again (state Single) without having published the full settings dump of this connection (subscription at %r ms)" % ep["sub_t"]))
         # the client must be back to accepting multipart requests when a walk is over
         if walk is None and a["state"] == "Multipart":
             V.append(("C10", k, "no walk pending but the client still refuses multipart requests"))
